@@ -207,6 +207,18 @@ func c01Decide(env *c01Env, qname string, qtype uint16, src string) (v c01Verdic
 			cl = &c.Clients[i]
 		}
 	}
+	if cl == nil {
+		// No client owns the address itself: the most specific network wins.
+		best := -1
+		for i := range c.Clients {
+			if c.Clients[i].CIDR == "" {
+				continue
+			}
+			if p := netip.MustParsePrefix(c.Clients[i].CIDR); p.Contains(cliIP) && p.Bits() > best {
+				cl, best = &c.Clients[i], p.Bits()
+			}
+		}
+	}
 	cliName := ""
 	if cl != nil {
 		cliName = cl.Name
@@ -423,6 +435,19 @@ func c01GenConf(rng *rand.Rand, rs []*c01Rule, svcIDs []string) *vkConf {
 	}
 	if rng.Intn(3) != 0 {
 		c.Clients[1].Services = []string{svcIDs[rng.Intn(len(svcIDs))]}
+	}
+	if rng.Intn(2) == 0 {
+		// Two clients identified by networks, one inside the other, with
+		// different settings; in either order.
+		wideOn := rng.Intn(2) == 0
+		nets := []vkClient{
+			{Name: "net-wide", CIDR: "127.0.0.0/28", UseOwnSettings: true, FilteringEnabled: wideOn},
+			{Name: "net-narrow", CIDR: "127.0.0.4/30", UseOwnSettings: true, FilteringEnabled: !wideOn},
+		}
+		if rng.Intn(2) == 0 {
+			nets[0], nets[1] = nets[1], nets[0]
+		}
+		c.Clients = append(c.Clients, nets...)
 	}
 	lists := map[string]*vkList{
 		"block1": {ID: 1001}, "block2": {ID: 1002}, "allow": {ID: 2001, Allow: true},
